@@ -247,6 +247,80 @@ def c15():
     ]
 
 
+def c05():
+    EI = "xitorch/_impls/linalg/symeig.py"
+    PUBS = "xitorch/linalg/symeig.py"
+    TE = "xitorch/_utils/tensor.py"
+    return [
+        R("c05-backtransform-P", "C05", EI, "        evecs = torch.matmul(LinvT, evecs)\n", "        evecs = torch.matmul(Linv, evecs)\n", "C05-R"),
+        R("c05-backtransform-missing", "C05", EI, "        evecs = torch.matmul(LinvT, evecs)\n        return evals, evecs", "        return evals, evecs", "C05-R"),
+        R("c05-reduction-order", "C05", EI, "        A2 = torch.matmul(Linv, torch.matmul(Amatrix, LinvT))", "        A2 = torch.matmul(LinvT, torch.matmul(Amatrix, Linv))", "C05-R"),
+        R("c05-reduction-noconj", "C05", EI, "        LinvT = Linv.transpose(-2, -1).conj()  # (*BM, q, q)", "        LinvT = Linv.transpose(-2, -1)  # (*BM, q, q)", ["C05-R", "C02-H"]),
+        R("c05-reduction-L-not-inv", "C05", EI, "        Linv = torch.inverse(L)  # (*BM, q, q)", "        Linv = L  # (*BM, q, q)", "C05-R"),
+        R("c05-reduction-chol-of-A", "C05", EI, "        L = torch.linalg.cholesky(Mmatrix)  # (*BM, q, q)", "        L = torch.linalg.cholesky(Amatrix)  # (*BM, q, q)", "C05-R"),
+        R("c05-reduction-equivalent", "C05", EI, "        A2 = torch.matmul(Linv, torch.matmul(Amatrix, LinvT))", "        A2 = torch.matmul(torch.matmul(Linv, Amatrix), LinvT)", None, expect="silent"),
+        R("c05-take-upper-values-only", "C05", EI, "        eival = eival[..., -neig:]\n        eivec = eivec[..., -neig:]", "        eival = eival[..., -neig:]\n        eivec = eivec[..., :neig]", "C05-T"),
+        R("c05-take-lowest-rows", "C05", EI, "        eivec = eivec[..., :neig]\n    else", "        eivec = eivec[..., :neig, :]\n    else", "C05-T"),
+        R("c05-take-swapped-args", "C05", EI, "        eigvalT, eigvecT = _take_eigpairs(eigvalT, eigvecT, neig, mode)", "        eigvalT, eigvecT = _take_eigpairs(eigvalT, eigvecT, nguess, mode)", "C05-T"),
+        R("c05-mode-uppermost", "C05", PUBS, "    if mode == \"uppermost\":\n        mode = \"uppest\"\n", "", "C05-T"),
+        R("c05-tallqr-R", "C05", TE, "    Rinv = torch.inverse(R)  # (*BMV, nguess, nguess)", "    Rinv = torch.inverse(R).transpose(-2, -1)  # (*BMV, nguess, nguess)", "C05-Q"),
+        R("c05-tallqr-gram", "C05", TE, "    VTV = torch.matmul(V.transpose(-2, -1), MV)  # (*BMV, nguess, nguess)", "    VTV = torch.matmul(V.transpose(-2, -1), V)  # (*BMV, nguess, nguess)", "C05-Q",
+          note="M ignored in the orthonormalisation"),
+        R("c05-tallqr-lower", "C05", TE, "    R = torch.linalg.cholesky(VTV.transpose(-2, -1).conj()).transpose(-2, -1).conj()  # (*BMV, nguess, nguess)", "    R = torch.linalg.cholesky(VTV.transpose(-2, -1).conj())  # (*BMV, nguess, nguess)", "C05-Q"),
+        R("c05-dav-T", "C05", EI, "        T = torch.matmul(VT, AV)  # (*BAM,nguess,nguess)", "        T = torch.matmul(VT, V)  # (*BAM,nguess,nguess)", "C05-D"),
+        R("c05-dav-resid-noM", "C05", EI, "        if M is not None:\n            LVs = M.mm(LVs)\n        resid = AVs - LVs", "        resid = AVs - LVs", "C05-D"),
+        R("c05-dav-resid-wrongvec", "C05", EI, "        LVs = eigvalT.unsqueeze(-2) * eigvecA  # (*BAM, na, neig)", "        LVs = eigvalT.unsqueeze(-2) * AVs  # (*BAM, na, neig)", "C05-D"),
+        R("c05-dav-best-after-break", "C05", EI, "        if max_resid < best_resid:\n            best_resid = max_resid\n            best_eigvals = eigvalT\n            best_eigvecs = eigvecA\n        if max_resid < min_eps:\n            break",
+          "        if max_resid < min_eps:\n            break\n        if max_resid < best_resid:\n            best_resid = max_resid\n            best_eigvals = eigvalT\n            best_eigvecs = eigvecA", "C05-D",
+          note="the converged pair is never recorded"),
+        R("c05-dav-qr-noM", "C05", EI, "            V, R = tallqr(Vnew, MV=MV_)", "            V, R = tallqr(Vnew)", "C05-D"),
+        R("c05-dav-stop", "C05", EI, "        if max_resid < min_eps:\n            break", "        if max_deigval < min_eps:\n            break", "C05-D"),
+        R("c05-svd-gram-swapped", "C05", PUBS, "        AAsym = A.matmul(A.H, is_hermitian=True)\n        min_nm = m", "        AAsym = A.H.matmul(A, is_hermitian=True)\n        min_nm = m", "C05-S"),
+        R("c05-svd-other-factor", "C05", PUBS, "        v = A.rmm(u) / sdiv  # (*BA, n, k)", "        v = A.rmm(u)  # (*BA, n, k)", "C05-S"),
+        R("c05-svd-no-hermitian-flag", "C05", PUBS, "        AAsym = A.H.matmul(A, is_hermitian=True)", "        AAsym = A.H.matmul(A)", "C05-S"),
+        R("c05-svd-vh-noconj", "C05", PUBS, "    vh = v.transpose(-2, -1).conj()", "    vh = v.transpose(-2, -1)", ["C05-S", "C02-H"]),
+        R("c05-svd-noclamp", "C05", PUBS, "    eivals = torch.clamp(eivals, min=0.0)\n", "", "C05-S"),
+        R("c05-hermitian-check-dropped", "C05", PUBS, "        assert_runtime(M.is_hermitian, \"The linear operator M must be Hermitian\")\n", "", "C05-V"),
+    ]
+
+
+def c06():
+    EI = "xitorch/_impls/linalg/symeig.py"
+    PUBS = "xitorch/linalg/symeig.py"
+    return [
+        R("c06-create-graph", "C06", PUBS, "            grad_outputs=(gaccumA,),\n            create_graph=torch.is_grad_enabled(),", "            grad_outputs=(gaccumA,),\n            create_graph=False,", "AC3"),
+        R("c06-options-not-splatted", "C06", PUBS, "                gevecs = solve(A, -B, evals_offset, M, bck_options=ctx.bck_config,\n                               **ctx.bck_config)", "                gevecs = solve(A, -B, evals_offset, M, bck_options=ctx.bck_config)", "AC5"),
+        R("c06-rhs-sign", "C06", PUBS, "                gevecs = solve(A, -B, evals_offset, M,", "                gevecs = solve(A, B, evals_offset, M,", "C06-S"),
+        R("c06-no-projection", "C06", PUBS, "            B = _ortho(grad_evecs, evecs, D=idx_degen, M=M, mright=False)", "            B = grad_evecs", "C06-S"),
+        R("c06-projection-no-degen-map", "C06", PUBS, "            B = _ortho(grad_evecs, evecs, D=idx_degen, M=M, mright=False)", "            B = _ortho(grad_evecs, evecs, D=None, M=M, mright=False)", "C06-S",
+          note="degenerate subspaces are not projected out: singular shifted system when eigenvalues coincide"),
+        R("c06-reproject-mleft", "C06", PUBS, "            gevecsA = _ortho(gevecs, evecs, D=None, M=M, mright=True)", "            gevecsA = _ortho(gevecs, evecs, D=None, M=M, mright=False)", "C06-S"),
+        R("c06-shift-wrong", "C06", PUBS, "                evals_offset = evals\n", "                evals_offset = evals * 0\n", "C06-S"),
+        R("c06-M-sign", "C06", PUBS, "            gevalsM = -gevalsA * evals.unsqueeze(-2)", "            gevalsM = gevalsA * evals.unsqueeze(-2)", "C06-M"),
+        R("c06-M-par-half", "C06", PUBS, "            gevecsM_par = (-0.5 * torch.einsum(", "            gevecsM_par = (-1.0 * torch.einsum(", "C06-M"),
+        R("c06-M-par-dropped", "C06", PUBS, "            gaccumM = gevalsM + gevecsM + gevecsM_par", "            gaccumM = gevalsM + gevecsM", "C06-M"),
+        R("c06-M-par-noconj", "C06", PUBS, "grad_evecs, evecs.conj())", "grad_evecs, evecs)", "C06-M"),
+        R("c06-pullback-swapped", "C06", PUBS, "                outputs=(mloss,),\n                inputs=mparams,\n                grad_outputs=(gaccumM,),", "                outputs=(mloss,),\n                inputs=mparams,\n                grad_outputs=(gaccumA,),", "C06-M"),
+        R("c06-M-equivalent", "C06", PUBS, "            gevalsM = -gevalsA * evals.unsqueeze(-2)\n            gevecsM = -gevecsA * evals.unsqueeze(-2)", "            gevalsM = -(evals.unsqueeze(-2) * gevalsA)\n            gevecsM = evals.unsqueeze(-2) * (-gevecsA)", None, expect="silent"),
+        R("c06-ortho-mright-none", "C06", PUBS, "            return A - torch.einsum(str1, M.mm(A), Bconj).unsqueeze(-2) * B", "            return A - torch.einsum(str1, A, Bconj).unsqueeze(-2) * B", "C06-O"),
+        R("c06-ortho-mleft-degen", "C06", PUBS, "            DBHA = D * torch.matmul(BH, A)\n            return A - M.mm(torch.matmul(B, DBHA))", "            DBHA = D * torch.matmul(BH, A)\n            return A - torch.matmul(B, DBHA)", "C06-O"),
+        R("c06-ortho-noconj", "C06", PUBS, "        BH = B.transpose(-2, -1).conj()\n        if M is None:\n            DBHA", "        BH = B.transpose(-2, -1)\n        if M is None:\n            DBHA", ["C06-O", "C02-H"]),
+        R("c06-ortho-no-D", "C06", PUBS, "            DBHA = D * torch.matmul(BH, M.mm(A))", "            DBHA = torch.matmul(BH, M.mm(A))", "C06-O"),
+        R("c06-dense-F-orientation", "C06", EI, "            F = eival.unsqueeze(-2) - eival.unsqueeze(-1)", "            F = eival.unsqueeze(-1) - eival.unsqueeze(-2)", "C06-G"),
+        R("c06-dense-void-after", "C06", EI, "            F = F.pow(-1)\n            F = F * torch.matmul(eivect, grad_eivec)", "            F = F.pow(-1)\n            F[idx] = 0.0\n            F = F * torch.matmul(eivect, grad_eivec)", None, expect="silent",
+          note="voiding twice is harmless"),
+        R("c06-dense-no-void", "C06", EI, "            F[idx] = float(\"inf\")\n", "", "C06-G", note="degenerate pairs divide by ~0"),
+        R("c06-dense-nosym", "C06", EI, "        result = (result + result.transpose(-2, -1).conj()) * 0.5", "        result = result * 1.0", "C06-G"),
+        R("c06-dense-sym-equivalent", "C06", EI, "        result = (result + result.transpose(-2, -1).conj()) * 0.5", "        result = 0.5 * result + result.conj().transpose(-2, -1) / 2", None, expect="silent"),
+        R("c06-dense-eivect-noconj", "C06", EI, "        eivect = eivec.transpose(-2, -1).conj()", "        eivect = eivec.transpose(-2, -1)", ["C06-G", "C02-H"]),
+        R("c06-degen-threshold", "C06", PUBS, "    degen_thrsh = degen_atol + degen_rtol * torch.abs(evals).unsqueeze(-1)", "    degen_thrsh = degen_atol * degen_rtol * torch.abs(evals).unsqueeze(-1)", "C06-K"),
+        R("c06-degen-flag", "C06", PUBS, "    isdegenerate = bool(torch.sum(idx_degen) > torch.numel(evals))", "    isdegenerate = bool(torch.sum(idx_degen) > 0)", "C06-K", note="always 'degenerate': harmless numerically but the rule pins the meaning"),
+        R("c06-svd-detach", "C06", PUBS, "        u = eivecs  # (*BA, m, k)", "        u = eivecs.detach()  # (*BA, m, k)", ["C06-D", "C05-S"]),
+        R("c06-group-order", "C06", PUBS, "        return (None, None, None, None, None, None, None, *grad_params, *grad_mparams)", "        return (None, None, None, None, None, None, None, *grad_mparams, *grad_params)", "AC6"),
+        R("c06-clone-detach", "C06", PUBS, "                mparams = [p.clone().requires_grad_() for p in mparams]", "                mparams = [p.detach().requires_grad_() for p in mparams]", "AC9"),
+    ]
+
+
 def extras():
     S_IMPL = "xitorch/_impls/linalg/solve.py"
     RS = "xitorch/_impls/optimize/root/rootsolver.py"
@@ -293,5 +367,5 @@ def seeded():
 
 def all_mutants():
     drop = {"c01-abe-no-unswap", "c07-rk4-other-order4", "c07-rk45-A", "c07-erk-two-steps-per-interval", "c07-packer-offset"}
-    ms = [m for m in c07() + c12() + c14() + c15() + extras() + seeded() if m["id"] not in drop]
+    ms = [m for m in c05() + c06() + c07() + c12() + c14() + c15() + extras() + seeded() if m["id"] not in drop]
     return ms
